@@ -2,6 +2,7 @@ package memstore
 
 import (
 	"context"
+	gotime "time"
 	"database/sql/driver"
 	"encoding/json"
 	"errors"
@@ -46,6 +47,21 @@ var (
 )
 
 func newSnapshot(t *microsql.Table) *snapshot {
+	// microsql compares std time.Time values: normalise the repository's time type
+	for _, row := range t.Rows {
+		for i, v := range row {
+			switch x := v.(type) {
+			case time.Time:
+				row[i] = x.Time
+			case *time.Time:
+				if x == nil {
+					row[i] = nil
+				} else {
+					row[i] = x.Time
+				}
+			}
+		}
+	}
 	s := &snapshot{name: fmt.Sprintf("snap_%d", snapSeq.Add(1)), table: t}
 	snapshots.Store(s.name, s)
 	return s
@@ -68,6 +84,8 @@ func toDriver(v any) driver.Value {
 		return x
 	case time.Time:
 		return x.Time
+	case gotime.Time:
+		return x
 	case bool:
 		return x
 	case jsonCol:
@@ -810,7 +828,7 @@ func (r *logsResource) handler() *memHandler[any] {
 				if !ok {
 					return nil, fmt.Errorf("invalid date %v", value)
 				}
-				return func(r []any) bool { return cmpOp(operator, cmpTime(r[3].(time.Time), v)) }, nil
+				return func(r []any) bool { return cmpOp(operator, cmpTime(time.New(r[3].(gotime.Time)), v)) }, nil
 			case "type":
 				sv, _ := value.(string)
 				if operator == queries.OperatorLike {
